@@ -15,6 +15,7 @@ import (
 	"fmt"
 	"io"
 	"math/rand"
+	"net"
 	"strings"
 	"sync"
 	"time"
@@ -97,7 +98,16 @@ type scenario struct {
 	Domain string `json:"domain"`
 	TLS12  bool   `json:"tls12,omitempty"`
 	TLSHdr string `json:"tls_header,omitempty"` // "" = complete
-	Order  []int  `json:"feature_order"`
+	// CfgFunc: what the function given to NewNegotiator returns for the nil
+	// session it is probed with: "" / "static" the same as for a real session,
+	// "session-dependent" the features without StartTLS, "session-only" nothing.
+	CfgFunc string `json:"cfg_func,omitempty"`
+	// Wrap: how the transport is handed to NewSession: "" the net.Conn itself,
+	// "connstate" a net.Conn wrapper with a ConnectionState() method (reporting
+	// no TLS), "rw" a bare io.ReadWriter, "connstate-rw" an io.ReadWriter with a
+	// ConnectionState() method.
+	Wrap  string `json:"wrap,omitempty"`
+	Order []int  `json:"feature_order"`
 }
 
 func genScenario(r *rand.Rand) scenario {
@@ -123,6 +133,8 @@ func genScenario(r *rand.Rand) scenario {
 	if r.Intn(3) == 0 {
 		sc.TLSHdr = tlsHdrKinds[1+r.Intn(3)]
 	}
+	sc.CfgFunc = []string{"static", "static", "static", "static", "static", "session-dependent", "session-dependent", "session-only"}[r.Intn(8)]
+	sc.Wrap = []string{"", "", "", "", "", "", "connstate", "connstate", "rw", "connstate-rw"}[r.Intn(10)]
 	return sc
 }
 
@@ -457,7 +469,39 @@ func (r result) outcome() string {
 		r.Peer.Clear, r.Peer.TLSEvents, r.InID, r.InVersion)
 }
 
-func instFeature(calls *[]instCall, mu *sync.Mutex) xmpp.StreamFeature {
+// transports that are not TLS but may look like it to a careless check
+
+type connStateConn struct{ net.Conn }
+
+func (connStateConn) ConnectionState() tls.ConnectionState { return tls.ConnectionState{} }
+
+type bareRW struct{ io.ReadWriter }
+
+type connStateRW struct{ io.ReadWriter }
+
+func (connStateRW) ConnectionState() tls.ConnectionState { return tls.ConnectionState{} }
+
+func wrapTransport(kind string, c net.Conn) io.ReadWriter {
+	switch kind {
+	case "connstate":
+		return connStateConn{c}
+	case "rw":
+		return bareRW{c}
+	case "connstate-rw":
+		return connStateRW{c}
+	}
+	return c
+}
+
+// shared is what the slice-reuse workload uses for several sessions in turn:
+// one []StreamFeature (same backing array) and, optionally, one Negotiator.
+type shared struct {
+	feats []xmpp.StreamFeature
+	neg   xmpp.Negotiator // nil: NewClientSession(ctx, origin, rw, feats...)
+	sink  func(instCall)
+}
+
+func instFeature(sink func(instCall)) xmpp.StreamFeature {
 	return xmpp.StreamFeature{
 		Name:      xml.Name{Space: nsInst, Local: "inst"},
 		Necessary: xmpp.Secure,
@@ -471,9 +515,7 @@ func instFeature(calls *[]instCall, mu *sync.Mutex) xmpp.StreamFeature {
 			return false, nil, d.Skip()
 		},
 		Negotiate: func(ctx context.Context, s *xmpp.Session, data interface{}) (xmpp.SessionState, io.ReadWriter, error) {
-			mu.Lock()
-			*calls = append(*calls, instCall{State: s.State(), Handshook: s.ConnectionState().HandshakeComplete, InID: s.In().ID})
-			mu.Unlock()
+			sink(instCall{State: s.State(), Handshook: s.ConnectionState().HandshakeComplete, InID: s.In().ID})
 			return 0, nil, nil
 		},
 	}
@@ -481,7 +523,7 @@ func instFeature(calls *[]instCall, mu *sync.Mutex) xmpp.StreamFeature {
 
 // runSession negotiates one client session for sc with the given STARTTLS
 // feature value against a fresh peer.
-func runSession(c *core.Case, sc scenario, stls xmpp.StreamFeature) result {
+func runSession(c *core.Case, sc scenario, stls xmpp.StreamFeature, sh *shared) result {
 	identity()
 	lib, peer := bufconn.Pipe()
 	rec := &peerRec{}
@@ -493,26 +535,47 @@ func runSession(c *core.Case, sc scenario, stls xmpp.StreamFeature) result {
 
 	var res result
 	var imu sync.Mutex
-	all := []xmpp.StreamFeature{stls, xmpp.SASL("", "secret", sasl.Plain), xmpp.BindResource(), instFeature(&res.Inst, &imu)}
-	var feats []xmpp.StreamFeature
-	for _, i := range sc.Order {
-		if i == 3 && !sc.Inst {
-			continue
-		}
-		feats = append(feats, all[i])
+	sink := func(ic instCall) {
+		imu.Lock()
+		res.Inst = append(res.Inst, ic)
+		imu.Unlock()
 	}
 	var teeIn, teeOut bytes.Buffer
-	neg := xmpp.NewNegotiator(func(*xmpp.Session, *xmpp.StreamConfig) xmpp.StreamConfig {
-		cfg := xmpp.StreamConfig{Features: feats}
-		if sc.Tee == "in" || sc.Tee == "both" {
-			cfg.TeeIn = &teeIn
+	var neg xmpp.Negotiator
+	if sh != nil {
+		sh.sink = sink
+		neg = sh.neg
+	} else {
+		feats := buildFeatures(sc, stls, sink)
+		var noTLS []xmpp.StreamFeature
+		for _, f := range feats {
+			if f.Name.Space != nsTLS {
+				noTLS = append(noTLS, f)
+			}
 		}
-		if sc.Tee == "out" || sc.Tee == "both" {
-			cfg.TeeOut = &teeOut
-		}
-		return cfg
-	})
+		neg = xmpp.NewNegotiator(func(s *xmpp.Session, _ *xmpp.StreamConfig) xmpp.StreamConfig {
+			cfg := xmpp.StreamConfig{Features: feats}
+			if s == nil {
+				// NewNegotiator probes the function with a nil session; it is
+				// documented to be called again for every stream of a real one
+				switch sc.CfgFunc {
+				case "session-dependent":
+					cfg.Features = noTLS
+				case "session-only":
+					cfg.Features = nil
+				}
+			}
+			if sc.Tee == "in" || sc.Tee == "both" {
+				cfg.TeeIn = &teeIn
+			}
+			if sc.Tee == "out" || sc.Tee == "both" {
+				cfg.TeeOut = &teeOut
+			}
+			return cfg
+		})
+	}
 	origin := jid.MustParse(user + "@" + sc.Domain + "/res")
+	rw := wrapTransport(sc.Wrap, lib)
 
 	var s *xmpp.Session
 	var err error
@@ -520,7 +583,11 @@ func runSession(c *core.Case, sc scenario, stls xmpp.StreamFeature) result {
 	go func() {
 		defer close(done)
 		c.Guard("NewSession", func() {
-			s, err = xmpp.NewSession(context.Background(), origin.Domain(), origin, lib, 0, neg)
+			if neg == nil {
+				s, err = xmpp.NewClientSession(context.Background(), origin, rw, sh.feats...)
+				return
+			}
+			s, err = xmpp.NewSession(context.Background(), origin.Domain(), origin, rw, 0, neg)
 		})
 	}()
 	select {
@@ -554,6 +621,19 @@ func runSession(c *core.Case, sc scenario, stls xmpp.StreamFeature) result {
 		res.Issues = append(res.Issues, "bytes-after-first-tls-record")
 	}
 	return res
+}
+
+// buildFeatures makes the client's feature list for sc in its PRNG order.
+func buildFeatures(sc scenario, stls xmpp.StreamFeature, sink func(instCall)) []xmpp.StreamFeature {
+	all := []xmpp.StreamFeature{stls, xmpp.SASL("", "secret", sasl.Plain), xmpp.BindResource(), instFeature(sink)}
+	var feats []xmpp.StreamFeature
+	for _, i := range sc.Order {
+		if i == 3 && !sc.Inst {
+			continue
+		}
+		feats = append(feats, all[i])
+	}
+	return feats
 }
 
 // checkClear tokenises what the client wrote before the first TLS record.
@@ -657,6 +737,19 @@ func judge(c *core.Case, sc scenario, res result, prior []string) {
 		c.Count("wedged", 1)
 		c.Inconclusive("client and peer both waited (scenario %+v, peer %+v)", sc, res.Peer)
 		return
+	}
+	forced := len(res.Peer.Clear) >= 2 && res.Peer.Clear[1] == "{"+nsTLS+"}starttls" && (!strings.HasPrefix(sc.Adv, "tls-") || sc.Adv == "tls-wrongns")
+	if sc.CfgFunc == "session-dependent" || sc.CfgFunc == "session-only" {
+		c.Count("cfgfunc_"+sc.CfgFunc+"_sessions", 1)
+		if forced {
+			c.Count("cfgfunc_"+sc.CfgFunc+"_forced_starttls", 1)
+		}
+	}
+	if sc.Wrap != "" {
+		c.Count("wrap_"+sc.Wrap+"_sessions", 1)
+		if res.Peer.HandshakeOK {
+			c.Count("wrap_"+sc.Wrap+"_handshakes", 1)
+		}
 	}
 	if sc.Tee != "off" {
 		c.Count("tee_sessions", 1)
@@ -801,7 +894,7 @@ func teeGroup(c *core.Case, base scenario, modes []string) {
 		sc := base
 		sc.Tee = m
 		gs.Scenarios = append(gs.Scenarios, sc)
-		res := runSession(c, sc, startTLSFor(sc))
+		res := runSession(c, sc, startTLSFor(sc), nil)
 		gs.Results = append(gs.Results, res)
 		judge(c, sc, res, nil)
 		c.Sig("%s|%s|%s|tee=%s|%s|inst=%v|%s", sc.Adv, sc.Answer, sc.InTLS, sc.Tee, sc.Cfg, sc.Inst, outcomeClass(res))
@@ -861,7 +954,7 @@ func reuseGroup(c *core.Case, r *rand.Rand, concurrent bool) {
 			wg.Add(1)
 			go func(i int) {
 				defer wg.Done()
-				gs.Results[i] = runSession(c, gs.Scenarios[i], stls)
+				gs.Results[i] = runSession(c, gs.Scenarios[i], stls, nil)
 			}(i)
 		}
 		wg.Wait()
@@ -877,7 +970,7 @@ func reuseGroup(c *core.Case, r *rand.Rand, concurrent bool) {
 		c.Count("reuse_sequential_groups", 1)
 		var prior []string
 		for i, sc := range gs.Scenarios {
-			gs.Results[i] = runSession(c, sc, stls)
+			gs.Results[i] = runSession(c, sc, stls, nil)
 			judge(c, sc, gs.Results[i], prior)
 			prior = append(prior, sc.Domain)
 			c.Count("reuse_sessions", 1)
@@ -887,6 +980,64 @@ func reuseGroup(c *core.Case, r *rand.Rand, concurrent bool) {
 		}
 	}
 	c.Sig("%s|n=%d", gs.Kind, n)
+}
+
+// sliceReuseGroup negotiates 2–3 sessions in turn with the SAME
+// []StreamFeature (and, in half of the groups, the same Negotiator value): the
+// first completes a real STARTTLS, the later ones face peers that strip it.
+func sliceReuseGroup(c *core.Case, r *rand.Rand) {
+	n := 2 + r.Intn(2)
+	gs := &groupSample{Kind: "slice-reuse"}
+	cfg := []string{"default", "explicit"}[r.Intn(2)]
+	p := r.Perm(len(domains))
+	order := r.Perm(4)
+	inst := r.Intn(2) == 0
+	for i := 0; i < n; i++ {
+		sc := scenario{Tee: "off", Cfg: cfg, Domain: domains[p[i]], Order: order, Inst: inst, TLSHdr: "complete", CfgFunc: "static"}
+		if i == 0 {
+			sc.Adv = []string{"tls-required", "tls-optional+others", "mechs-only", "tls-required+others"}[r.Intn(4)]
+			sc.Answer, sc.InTLS = "proceed-tls", "full"
+		} else {
+			sc.Adv = []string{"empty", "empty", "unknown-only", "inst-only", "mechs-only", "mechs+bind"}[r.Intn(6)]
+			sc.Answer = answerKinds[r.Intn(len(answerKinds))]
+			sc.InTLS = inTLSKinds[r.Intn(len(inTLSKinds))]
+		}
+		gs.Scenarios = append(gs.Scenarios, sc)
+	}
+	c.Sample(gs)
+	sh := &shared{}
+	sh.feats = buildFeatures(gs.Scenarios[0], startTLSFor(gs.Scenarios[0]), func(ic instCall) { sh.sink(ic) })
+	if r.Intn(2) == 0 {
+		gs.Kind = "slice-reuse-negotiator"
+		sh.neg = xmpp.NewNegotiator(func(*xmpp.Session, *xmpp.StreamConfig) xmpp.StreamConfig {
+			return xmpp.StreamConfig{Features: sh.feats}
+		})
+		c.Count("slice_reuse_groups_shared_negotiator", 1)
+	} else {
+		c.Count("slice_reuse_groups_newclientsession", 1)
+	}
+	var prior []string
+	firstSecure := false
+	for i, sc := range gs.Scenarios {
+		res := runSession(c, sc, xmpp.StreamFeature{}, sh)
+		gs.Results = append(gs.Results, res)
+		judge(c, sc, res, prior)
+		prior = append(prior, sc.Domain)
+		c.Sig("%s|%d|%s|%s|%s", gs.Kind, i, sc.Adv, sc.Answer, outcomeClass(res))
+		if i == 0 {
+			firstSecure = res.ready() && res.Handshook
+			if firstSecure {
+				c.Count("slice_reuse_first_session_ready_over_tls", 1)
+			}
+			continue
+		}
+		if firstSecure {
+			c.Count("slice_reuse_later_sessions_after_tls", 1)
+			if len(res.Peer.Clear) >= 2 && res.Peer.Clear[1] == "{"+nsTLS+"}starttls" {
+				c.Count("slice_reuse_later_session_forced_starttls", 1)
+			}
+		}
+	}
 }
 
 func without(l []string, x string) []string {
@@ -901,18 +1052,20 @@ func without(l []string, x string) []string {
 
 func run(c *core.Case) {
 	r := c.Rand
-	switch k := r.Intn(10); {
-	case k < 7:
+	switch k := r.Intn(20); {
+	case k < 12:
 		base := genScenario(r)
 		modes := []string{teeKinds[1+r.Intn(3)]}
 		if r.Intn(3) == 0 {
 			modes = []string{"in", "out", "both"}
 		}
 		teeGroup(c, base, modes)
-	case k < 9:
+	case k < 15:
 		reuseGroup(c, r, false)
-	default:
+	case k < 17:
 		reuseGroup(c, r, true)
+	default:
+		sliceReuseGroup(c, r)
 	}
 }
 
@@ -927,7 +1080,7 @@ func witnessOne(adv, answer, intls, tee string) func(*core.Case) {
 		sc := scenario{Adv: adv, Answer: answer, InTLS: intls, Tee: tee, Cfg: "explicit", Domain: domains[0], Order: []int{0, 1, 2, 3}}
 		gs := &groupSample{Kind: "single-session", Scenarios: []scenario{sc}}
 		c.Sample(gs)
-		res := runSession(c, sc, startTLSFor(sc))
+		res := runSession(c, sc, startTLSFor(sc), nil)
 		gs.Results = []result{res}
 		judge(c, sc, res, nil)
 	}
@@ -942,6 +1095,10 @@ func Prop() *core.Prop {
 	for _, k := range tlsHdrKinds {
 		req = append(req, "tls_header_"+k)
 	}
+	req = append(req, "cfgfunc_session-dependent_forced_starttls", "cfgfunc_session-only_forced_starttls",
+		"wrap_connstate_sessions", "wrap_connstate_handshakes", "wrap_rw_sessions", "wrap_connstate-rw_sessions",
+		"slice_reuse_groups_shared_negotiator", "slice_reuse_groups_newclientsession",
+		"slice_reuse_first_session_ready_over_tls", "slice_reuse_later_session_forced_starttls")
 	for _, a := range advKinds {
 		req = append(req, "adv_"+a)
 	}
@@ -983,7 +1140,7 @@ func Prop() *core.Prop {
 				var prior []string
 				for _, d := range domains[:2] {
 					sc := scenario{Adv: "tls-required", Answer: "proceed-tls", InTLS: "full", Tee: "off", Cfg: "default", Domain: d, Order: []int{0, 1, 2, 3}}
-					judge(c, sc, runSession(c, sc, stls), prior)
+					judge(c, sc, runSession(c, sc, stls, nil), prior)
 					prior = append(prior, d)
 				}
 			},
